@@ -260,6 +260,11 @@ func usesEnum(ms []absd.Msg) bool {
 }
 
 func buildFile(name, pkg, goImport string, msgs []absd.Msg, withGogo bool) *descriptor.FileDescriptorProto {
+	return buildFileEnum(name, pkg, goImport, msgs, withGogo, true)
+}
+
+// buildFileEnum: a second file of the same proto package must not declare the fixed enum again.
+func buildFileEnum(name, pkg, goImport string, msgs []absd.Msg, withGogo, withEnum bool) *descriptor.FileDescriptorProto {
 	fd := &descriptor.FileDescriptorProto{
 		Name:    proto.String(name),
 		Package: proto.String(pkg),
@@ -292,6 +297,9 @@ func buildFile(name, pkg, goImport string, msgs []absd.Msg, withGogo bool) *desc
 	}
 	if len(sci.Location) > 0 {
 		fd.SourceCodeInfo = sci
+	}
+	if !withEnum {
+		return fd
 	}
 	// one fixed enum, always declared
 	fd.EnumType = append(fd.EnumType, &descriptor.EnumDescriptorProto{
@@ -326,10 +334,17 @@ func Request(d absd.Desc, l Layout) *plugin.CodeGeneratorRequest {
 	ts.Options.GoPackage = proto.String("github.com/gogo/protobuf/types;types")
 	du.Options.GoPackage = proto.String("github.com/gogo/protobuf/types;types")
 	req.ProtoFile = append(req.ProtoFile, g, ts, du)
+	var shared []string
 	for _, dep := range d.Deps {
+		if dep.Share {
+			req.ProtoFile = append(req.ProtoFile, buildFileEnum(dep.Pkg+".proto", d.Pkg, l.StructImport, dep.Msgs, true, false))
+			shared = append(shared, dep.Pkg+".proto")
+			continue
+		}
 		req.ProtoFile = append(req.ProtoFile, buildFile(dep.Pkg+".proto", dep.Pkg, l.DepImportBase+"/"+dep.Pkg, dep.Msgs, true))
 	}
 	f := buildFile(d.Pkg+".proto", d.Pkg, l.StructImport, d.Msgs, true)
+	f.Dependency = append(f.Dependency, shared...)
 	req.ProtoFile = append(req.ProtoFile, f)
 	req.FileToGenerate = []string{d.Pkg + ".proto"}
 	return req
